@@ -140,9 +140,15 @@ def main(argv=None):
             inconclusive.append(f"counter {name}={got} below floor {floor}")
     if len(nontrivial) < 2:
         inconclusive.append("fewer than 2 distinct non-trivial cases")
+    # Anchors are evidence.  A single anchor that exists but was not entered may be a correct
+    # refactor that no longer routes through it, so it is only noted; but a run that entered NONE of
+    # the property's anchored mechanisms observed nothing of interest and is inconclusive.
+    found = [v for v in reach.values() if isinstance(v, dict)]
     for a, v in reach.items():
         if isinstance(v, dict) and v["calls"] == 0:
-            inconclusive.append(f"anchored mechanism {a} exists but was never entered")
+            notes.append(f"anchor {a} exists but was never entered in this run")
+    if found and not any(v["calls"] > 0 for v in found):
+        inconclusive.append("none of the anchored mechanisms was entered")
 
     # ---- known findings ----------------------------------------------------
     findings = [f for f in load_findings() if f.get("property") == prop]
